@@ -25,6 +25,10 @@ LEVEL_NOTE = (
     'Python builtins int(str, base), bin/oct/hex, &, ~, str.zfill, str.upper; floats as ideal reals.')
 DESIGN_REF = '§4 C19'
 
+# theorems of the integrated pipeline model (Props/X01.lean) that carry this property's theorems to formula TEXTS in a
+# compiled workbook; re-built and audited with this check (harness/common.prepare: soft obligations)
+TRANSPORT = ('XlVerif.Props.X01', ['X01_DEC2BIN'])
+
 TRUSTED = [
     'Lean 4.33 kernel; axioms propext, Classical.choice, Quot.sound only',
     'translator harness/extractors/c19_eng.py: that Gen/C19Eng.lean holds the tables of the running '
